@@ -141,11 +141,11 @@ def materialize(arr: SArr):
     for ix in itertools.product(*[range(d) for d in shape]):
         e = arr.elem(ix)
         if isinstance(e, Cx):
-            out[ix] = complex(float(e.re), float(e.im))
+            out[ix] = complex(V.num(e.re), V.num(e.im))
         elif isinstance(e, bool):
             out[ix] = e
         else:
-            out[ix] = float(e) if arr.dtype.kind in "fc" else int(e)
+            out[ix] = V.num(e) if arr.dtype.kind in "fc" else int(e)
     if arr.backend == "dask":
         import dask.array as da
         return da.from_array(out, chunks=tuple(max(1, (d + 1) // 2) if i else -1 for i, d in enumerate(shape)) if shape else ())
@@ -398,7 +398,7 @@ def compare_concrete(got, want, tol: Tol, where, out, pb):
         for ix in itertools.product(*[range(d) for d in wshape]):
             w = want.elem(ix)
             vals.append((ix, w))
-            m = abs(complex(float(Cx.of(w).re), float(Cx.of(w).im))) if not isinstance(w, bool) else 1.0
+            m = abs(complex(V.num(Cx.of(w).re), V.num(Cx.of(w).im))) if not isinstance(w, bool) else 1.0
             scale = max(scale, m)
         eps = 6e-8 if want.dtype.name in ("float32", "complex64") else 1.2e-16
         for ix, w in vals:
@@ -411,10 +411,10 @@ def compare_concrete(got, want, tol: Tol, where, out, pb):
                     lim = 4 * eps * scale
                 else:
                     lim = tol.data_abs * scale + 4 * eps * scale
-                zero_expected = float(wc.re) == 0 and float(wc.im) == 0 and getattr(want, "exact_zero", None) and want.exact_zero(ix)
+                zero_expected = V.num(wc.re) == 0 and V.num(wc.im) == 0 and getattr(want, "exact_zero", None) and want.exact_zero(ix)
                 if zero_expected:
                     lim = 0.0
-                d = abs(complex(float(gc.re) - float(wc.re), float(gc.im) - float(wc.im)))
+                d = abs(complex(V.num(gc.re) - V.num(wc.re), V.num(gc.im) - V.num(wc.im)))
                 ok = d <= lim
             if not ok:
                 out.append(Mismatch(f"{where}{list(ix)}", g, w))
